@@ -114,7 +114,7 @@ func genInterop(repo string) (string, error) {
 
 	var sb strings.Builder
 	sb.WriteString("namespace Opcua.Gen\n\n")
-	sb.WriteString("/-- one supported policy: short name, URI length, nonce length of the asymmetric algorithm,\n    modes with a non-zero security level, encoded OpenSecureChannel request / response body lengths -/\nstructure InteropPolicy where\n  name : String\n  uriLen : Nat\n  nonceLen : Nat\n  modes : List Nat\n  opnReqBody : Nat\n  opnRespBody : Nat\n  deriving Repr, DecidableEq\n\n")
+	sb.WriteString("/-- one supported policy: short name, URI length, nonce length of the asymmetric algorithm,\n    modes with a non-zero security level, encoded OpenSecureChannel request / response body lengths -/\nstructure InteropPolicy where\n  name : String\n  isNone : Bool\n  uriLen : Nat\n  nonceLen : Nat\n  modes : List Nat\n  opnReqBody : Nat\n  opnRespBody : Nat\n  deriving Repr, DecidableEq\n\n")
 	var rows []string
 	for _, uri := range uapolicy.SupportedPolicies() {
 		nm := uri[strings.LastIndex(uri, "#")+1:]
@@ -157,8 +157,8 @@ func genInterop(repo string) (string, error) {
 			return "", err
 		}
 		// + 4 bytes TypeID (four-byte ExpandedNodeID) written by EncodeChunks
-		rows = append(rows, fmt.Sprintf("  { name := %q, uriLen := %d, nonceLen := %d, modes := [%s], opnReqBody := %d, opnRespBody := %d }",
-			nm, len(uri), a.NonceLength(), strings.Join(modes, ", "), len(rb)+4, len(pb)+4))
+		rows = append(rows, fmt.Sprintf("  { name := %q, isNone := %v, uriLen := %d, nonceLen := %d, modes := [%s], opnReqBody := %d, opnRespBody := %d }",
+			nm, uri == ua.SecurityPolicyURINone, len(uri), a.NonceLength(), strings.Join(modes, ", "), len(rb)+4, len(pb)+4))
 	}
 	fmt.Fprintf(&sb, "/-- `uapolicy.SupportedPolicies()` -/\ndef interopPolicies : List InteropPolicy := [\n%s\n]\n\n", strings.Join(rows, ",\n"))
 	fmt.Fprintf(&sb, "/-- uacp.DefaultReceiveBufSize / DefaultSendBufSize -/\ndef defaultReceiveBufSize : Nat := %d\ndef defaultSendBufSize : Nat := %d\n\n", uacp.DefaultReceiveBufSize, uacp.DefaultSendBufSize)
